@@ -4,12 +4,13 @@ import numpy as np
 from harness import lib, core
 
 RULE = ("traces = one per (topology, start node, callback mode) for every topology (all numberings) up to the bound, each through one of the "
-        "three public entry points, recorded by token-returning callbacks (the leave callback also mutates the list it is handed) and validated "
-        "event by event by Trace_StructRec; plus random trees of 50-500 nodes and chains of 2e4 (quick) / 1e5 (thorough) nodes validated by "
+        "three public entry points, recorded by token-returning callbacks (the leave callback also mutates the list it is handed; in a quarter of the traces the callbacks return None for some nodes) and validated "
+        "event by event by Trace_StructRec; plus random trees of 50-500 nodes, random trees of 7e4-1.5e5 nodes under interleaved numberings (validated by the folded "
+        "judge Trace_BigRec, which MC_BigRec checks against StructRec on every small tree) and chains of 2e4 (quick) / 1e5 (thorough) nodes validated by "
         "Trace_ChainRec; non-trivial = subtree of the start node has at least 3 nodes; distinct by (topology, start, mode)")
 
 
-def record(P, start, mode, api, pre=None, ed=None, copy_after=False):
+def record(P, start, mode, api, pre=None, ed=None, copy_after=False, nones=False):
     from swcgeom.core import Tree
     from swcgeom.core.swc_utils import traverse
     events, counter = [], [0]
@@ -19,14 +20,16 @@ def record(P, start, mode, api, pre=None, ed=None, copy_after=False):
 
     def enter(n, pin):
         counter[0] += 1
-        events.append(["E", nid(n), -1 if pin is None else pin, counter[0]])
-        return counter[0]
+        ret = None if (nones and nid(n) % 3 == 1) else counter[0]       # a callback may return nothing: that is a value like any other
+        events.append(["E", nid(n), -1 if pin is None else pin, -1 if ret is None else ret])
+        return ret
 
     def leave(n, cs):
         counter[0] += 1
-        events.append(["L", nid(n), list(cs), counter[0]])
+        ret = None if (nones and nid(n) % 2 == 1) else counter[0]
+        events.append(["L", nid(n), [-1 if v is None else v for v in cs], -1 if ret is None else ret])
         cs.append(-5)            # a callback may do what it likes with the list it was handed
-        return counter[0]
+        return ret
     kw = {}
     if mode in ("enter", "both"):
         kw["enter"] = enter
@@ -61,7 +64,7 @@ def execute(c):
     api = c.get("api", lib.vid(c) % 3)
     events = []
     try:
-        events = record(c["P"], c["start"], c["mode"], api, c.get("pre"), c.get("ed"), lib.vid(c) % 2 == 1)
+        events = record(c["P"], c["start"], c["mode"], api, c.get("pre"), c.get("ed"), lib.vid(c) % 2 == 1, nones=c.get("nones", lib.vid(c) % 4 == 2))
     except RecursionError:
         return {"events": [], "err": "RecursionError"}
     return {"events": events}
@@ -120,6 +123,20 @@ def chain(ctx, n, start, api):
         ctx.samples.append({"stage": "chain", "case": {"chain_nodes": n, "start": start, "api": api}, "observed": {"events": len(ev), "first": ev[:2], "last": ev[-2:]}})
 
 
+def big_cases(ctx, sizes):
+    """large trees of any shape under a numbering that interleaves the children of different parents (ids far from their parents')"""
+    rng = ctx.rng
+    out = []
+    for n, api in sizes:
+        par = [-1] + [rng.randrange(max(0, i - 40), i) if rng.random() < 0.7 else rng.randrange(0, i) for i in range(1, n)]
+        lab = list(range(1, n)); rng.shuffle(lab); lab = [0] + lab
+        P = [-1] * n
+        for i in range(1, n):
+            P[lab[i]] = lab[par[i]]
+        out.append({"P": P, "start": 0, "mode": "both", "api": api, "nones": False})
+    return out
+
+
 def run(ctx):
     ctx.mc("MC_Traverse", "MC_Traverse.%s.cfg" % ctx.tier, expect_actions=["EnterFrame", "LeaveFrame", "Return"])
     ctx.mc("MC_ChainRec", "MC_ChainRec.cfg", coverage=False)
@@ -128,6 +145,10 @@ def run(ctx):
     rc = random_cases(ctx, 30 if ctx.tier == "quick" else 200, 50, 300 if ctx.tier == "quick" else 500)
     p = ctx.write_cases("random", rc)
     ctx.run_cases("random", rc, p, execute, "Trace_StructRec", keyfn, nontrivial)
+    ctx.mc("MC_BigRec", "MC_BigRec.%s.cfg" % ctx.tier, deadlock=False, coverage=False)      # the folded large-tree judge rejects exactly what StructRec rejects
+    bc = big_cases(ctx, [(70000, 1), (3000, 0)] if ctx.tier == "quick" else [(70000, 1), (100000, 0), (150000, 2), (3000, 1)])
+    p = ctx.write_cases("large-trees", bc)
+    ctx.run_cases("large-trees", bc, p, execute, "Judge_BigRec", keyfn, nontrivial, per_case_timeout=600)
     deep = 20000 if ctx.tier == "quick" else 100000
     chain(ctx, deep, 0, 0)
     chain(ctx, deep // 2, 7, 1)
